@@ -73,24 +73,26 @@ def lfp(tabs, n):
         dec = gamma(tabs, dec, n)
     return dec
 
+def _and(xs): return z3.And(*xs) if xs else z3.BoolVal(True)
+
 def is_complete(tabs, v, n):
     """v: string over T/F/u.  v is a fixpoint of the consequence operator"""
     dec = [(z3.BoolVal(c == 'T'), z3.BoolVal(c == 'F')) for c in v]
     g = gamma(tabs, dec, n)
-    return z3.And(*[z3.And(g[s][0] == dec[s][0], g[s][1] == dec[s][1]) for s in range(n)])
+    return _and([z3.And(g[s][0] == dec[s][0], g[s][1] == dec[s][1]) for s in range(n)])
 
 def v_to_asg(v): return sum(1 << i for i, c in enumerate(v) if c == 'T')
 
 def is_model(tabs, v, n):
     a = v_to_asg(v)
-    return z3.And(*[zb(tabs[s][a]) if v[s] == 'T' else z3.Not(zb(tabs[s][a])) for s in range(n)])
+    return _and([zb(tabs[s][a]) if v[s] == 'T' else z3.Not(zb(tabs[s][a])) for s in range(n)])
 
 def is_stable(tabs, v, n):
     """two-valued v is a model and the grounded interpretation of the reduct re-derives every true statement"""
     keep = v_to_asg(v)
     red = [[tabs[s][asg & keep] for asg in range(1 << n)] for s in range(n)]
     g = lfp(red, n)
-    return z3.And(is_model(tabs, v, n), *[g[s][0] for s in range(n) if v[s] == 'T'])
+    return _and([is_model(tabs, v, n)] + [g[s][0] for s in range(n) if v[s] == 'T'])
 
 # The oracle formulas depend only on the (symbolic) truth tables, which are the same z3 constants on every path of a job:
 # they are built once per worker process and reused (building them dominated the run time otherwise).
